@@ -165,20 +165,22 @@ theorem injFile_step (w : Tape.World) (src : Str) (hsrc : CleanSrc src) (st : In
     · exact ⟨_, _, rfl, h, Keeps.refl _, OnlyFrom.refl _ _ _⟩
     · split
       · exact ⟨_, _, rfl, h, Keeps.refl _, OnlyFrom.refl _ _ _⟩
-      · obtain ⟨st', hst', hok, hstep⟩ := injWriteFile_step fileName (dispatch fileName fileExtension extWithOption).2.2
-          (dispatch fileName fileExtension extWithOption).1 (dispatch fileName fileExtension extWithOption).2.1 data hname 4 st h
-        rw [hst']
-        refine ⟨_, _, rfl, hok, hstep.keeps, ?_⟩
-        intro k j r c hk hj hf
-        rcases hstep with hall | ⟨k0, i0, _, _, _, ⟨r0, hnew, hrec⟩, hother⟩
-        · left; rw [← hall k j hk hj]; exact hf
-        · by_cases hc : k = k0 ∧ j = i0
-          · obtain ⟨rfl, rfl⟩ := hc
-            rw [hnew] at hf
-            cases hf
-            right
-            exact ⟨src, by simp, _, _, _, _, hoff _ _ _ _ _ ⟨hw, rfl, rfl, rfl, rfl⟩, hrec⟩
-          · left; rw [← hother k j hk hj hc]; exact hf
+      · split
+        · exact ⟨_, _, rfl, h, Keeps.refl _, OnlyFrom.refl _ _ _⟩
+        · obtain ⟨st', hst', hok, hstep⟩ := injWriteFile_step fileName (dispatch fileName fileExtension extWithOption).2.2
+            (dispatch fileName fileExtension extWithOption).1 (dispatch fileName fileExtension extWithOption).2.1 data hname 4 st h
+          rw [hst']
+          refine ⟨_, _, rfl, hok, hstep.keeps, ?_⟩
+          intro k j r c hk hj hf
+          rcases hstep with hall | ⟨k0, i0, _, _, _, ⟨r0, hnew, hrec⟩, hother⟩
+          · left; rw [← hall k j hk hj]; exact hf
+          · by_cases hc : k = k0 ∧ j = i0
+            · obtain ⟨rfl, rfl⟩ := hc
+              rw [hnew] at hf
+              cases hf
+              right
+              exact ⟨src, by simp, _, _, _, _, hoff _ _ _ _ _ ⟨hw, rfl, rfl, rfl, rfl⟩, hrec⟩
+            · left; rw [← hother k j hk hj hc]; exact hf
 
 theorem injLoop_step (w : Tape.World) : ∀ (srcs : List Str) (st : Inj), (∀ src ∈ srcs, CleanSrc src) → ImgOk st.img →
     ∃ st', injLoop w srcs st = .ok st' ∧ ImgOk st'.img ∧ Keeps st.img st'.img ∧ OnlyFrom w srcs st.img st'.img := by
